@@ -88,6 +88,10 @@ func check(c Case) error {
 			return vk.Errf("writing the same record twice gives different text (first difference at byte %d):\n--- first ---\n%s\n--- again ---\n%s", firstDiff(string(text), string(again)), around(string(text), firstDiff(string(text), string(again))), around(string(again), firstDiff(string(text), string(again))))
 		}
 	}
+	// writing leaves the record it was given as it is
+	if after, afterTrees := gbk.ExpectedOf(x); compareRoundTrip("the record after Build (the writer must not change its argument)", after, afterTrees, want, trees) != nil {
+		return compareRoundTrip("the record after Build (the writer must not change its argument)", after, afterTrees, want, trees)
+	}
 	// the text handed back must stay what it is when other records are written afterwards
 	snapshot := string(text)
 	other := x
